@@ -99,7 +99,7 @@ theorem mem_collect : ∀ (ops : Ops) (c : Constr), c ∈ ops.conList → c.trut
 
 theorem imposedBy_self (c : Constr) : imposedBy c c = true := by
   obtain ⟨k, ops⟩ := c
-  simp [imposedBy, pyEq_refl]
+  simp [imposedBy]
 
 /-- an intersection imposes each of its operands -/
 theorem imposedByOps_of_mem : ∀ (ops : Ops) (c : Constr), c ∈ ops.conList → imposedByOps c ops = true
